@@ -26,7 +26,11 @@ ALL = [("G06_datachecker", "tools.tr.tr_datachecker", "write"),
        ("G18_proofs", "tools.tr.tr_proofs", "write"),
        ("G10_reqcache", "tools.tr.tr_reqcache", "write"),
        ("G14_routing", "tools.tr.tr_routing", "write"),
-       ("G16_tokentree", "tools.tr.tr_tokentree", "write")]
+       ("G16_tokentree", "tools.tr.tr_tokentree", "write"),
+       ("G17_consent", "tools.tr.tr_consent", "write"),
+       ("G20_vp", "tools.tr.tr_vp", "write"),
+       ("G12_network", "tools.tr.tr_network", "write"),
+       ("G08_handshake", "tools.tr.tr_handshake", "write")]
 
 
 def main():
